@@ -124,6 +124,12 @@ def _(w):
     return impl.URL.build(scheme="http", host="h.com", path=w)
 
 
+@route("build_scheme_case", "build", _one("path", "decoded", lambda w: "/" + w, has_authority=True))
+def _(w):
+    # schemes are case-insensitive (RFC 3986 3.1); the port equals the default of the lower-cased scheme
+    return impl.URL.build(scheme="HtTp", host="h.com", port=80, path="/" + w)
+
+
 @route("build_path_noauth", "build", _one("path", "decoded", has_authority=False))
 def _(w):
     return impl.URL.build(path=w)
